@@ -33,3 +33,17 @@ package tablelib
 //@   loop 1: invariant i <= j
 //@   loop 1: decreases mathint(j) - mathint(i)
 //@   assert_before_call Index inscope: typeis($k.iface, int64) && $k.AsInt() == i && i <= j
+
+// table.insert(list, [pos,] value) is defined in terms of list[k] = v (manual
+// 6.6): every store goes through SetIndex, which honours __newindex - the
+// function never stores raw.
+//@ func insert
+//@   prop C19 C04
+//@   arith int
+//@   requires t != nil && t.Runtime != nil && c != nil && c.GoFunction != nil && c.next != nil && 0 <= c.nArgs && c.nArgs <= len(c.args) && len(c.args) == 3
+//@   modifies everything()
+//@   exits ContextTerminationError
+//@   loop 1: invariant true
+//@   never_call SetTable
+//@   never_call Set
+//@   never_call SetInt
